@@ -219,7 +219,7 @@ func smPairs(cases []smCase, n int, seed int64) []smPair {
 	strata := map[string][]int{}
 	var names []string
 	for i, cs := range cases {
-		if cs.Expect == "unknown" || strings.HasPrefix(cs.Skel, "scaled:") || cs.Skel == "rulekinds" {
+		if cs.Expect == "unknown" || strings.HasPrefix(cs.Skel, "scaled:") || cs.Skel == "rulekinds" || cs.Skel == "namedenum" {
 			continue
 		}
 		isNull := cs.V == "null" || strings.HasPrefix(cs.Extra["root"], "null") || strings.Contains(cs.Extra["root"], ": null")
@@ -243,7 +243,7 @@ func smPairs(cases []smCase, n int, seed int64) []smPair {
 			sa, sb := strata[names[rng.Intn(len(names))]], strata[names[rng.Intn(len(names))]]
 			a, b = cases[sa[rng.Intn(len(sa))]], cases[sb[rng.Intn(len(sb))]]
 		}
-		if a.Expect == "unknown" || b.Expect == "unknown" {
+		if a.Expect == "unknown" || b.Expect == "unknown" || a.Skel == "namedenum" || b.Skel == "namedenum" {
 			continue
 		}
 		e := "accept"
